@@ -79,11 +79,14 @@ class Ctx:
         """fail-closed anchor: an expected construct must exist"""
         return self.ob(rule, fn, site, bool(cond), how=how, detail=detail)
 
-    def take_ts(self, prefixes):
-        """import the typestate obligations whose rule name starts with one of prefixes"""
+    def take_ts(self, prefixes, fn_filter=None):
+        """import the typestate obligations whose rule name starts with one of prefixes (and whose
+        function satisfies fn_filter, when given)"""
         S, stats = self.ts
         n = 0
         for o in S.obs.values():
+            if fn_filter is not None and not fn_filter(o.fn):
+                continue
             if any(o.rule == p or o.rule.startswith(p) for p in prefixes):
                 key = (o.rule, o.fn, o.site)
                 mine = self.obs.get(key)
